@@ -3,6 +3,7 @@ mod model;
 mod util;
 mod world;
 mod props;
+mod schedx;
 
 use util::Tier;
 
